@@ -7,18 +7,13 @@ namespace OpcuaVerif.C27
 open OpcuaVerif.C22 (stateNum msgStr)
 
 def showEntry (x : Entry) : String :=
-  s!"{x.id}:{stateNum x.s.state}:{x.s.life}:{x.s.ka}:{x.s.notifs.length}"
+  s!"{x.id}:p{x.prio}:{stateNum x.s.state}:{x.s.life}:{x.s.ka}:{x.s.notifs.length}"
 
 def showResps (out : List MResp) : String :=
   "[" ++ ",".intercalate (out.map fun r => s!"{r.rid}:{r.sub}:{msgStr r.kind}:{r.seq}") ++ "]"
 
 def showSess (z : MSess) (out : List MResp) : String :=
   "subs=[" ++ ",".intercalate (z.subs.map showEntry) ++ "] rq=" ++ natList z.reqs ++ " resp=" ++ showResps out
-
-/-- entries in ascending id order (insertion into the BTreeMap) -/
-def insertById (x : Entry) : List Entry → List Entry
-  | [] => [x]
-  | y :: ys => if x.id < y.id then x :: y :: ys else if x.id = y.id then x :: ys else y :: insertById x ys
 
 def mkEntries : List Nat → List Nat → List Nat → Nat → Nat → List Entry
   | i :: is, p :: ps, t :: ts, ka, life =>
@@ -50,6 +45,25 @@ def dstep (z : MSess) (toks : List String) : MSess × String :=
       | .tooMany z' out => (z', "ok res=toomany " ++ showSess z' out)
       | .panic => (z, "panic")
     | none => (z, "bad-op")
+  | ["setprio", i, p] =>
+    match i.toNat?, p.toNat? with
+    | some i, some p =>
+      match setPrio z i p with
+      | some z' => (z', "ok " ++ showSess z' [])
+      | none => (z, "err nosub")
+    | _, _ => (z, "bad-op")
+  | ["remove", i] =>
+    match i.toNat? with
+    | some i =>
+      let (z', was) := remove z i
+      (z', s!"ok res={if was then "removed" else "none"} " ++ showSess z' [])
+    | none => (z, "bad-op")
+  | ["add", i, p, t, ka, life] =>
+    match i.toNat?, p.toNat?, t.toNat?, ka.toNat?, life.toNat? with
+    | some i, some p, some t, some ka, some life =>
+      let z' := add z { id := i, prio := p, s := C22.mk life ka true (t != 0) }
+      (z', "ok " ++ showSess z' [])
+    | _, _, _, _, _ => (z, "bad-op")
   | _ => (z, "bad-op")
 
 def driver : Driver := { σ := MSess, init := { subs := [], reqs := [] }, step := dstep }
